@@ -11,6 +11,7 @@ import (
 	"verifharness/adapt"
 	"verifharness/exact"
 	"verifharness/fw"
+	"verifharness/kf"
 )
 
 type c19SegPt struct {
@@ -66,18 +67,24 @@ func c19CheckSegPt(c c19SegPt) fw.Outcome {
 	}
 	nt := level || inBox
 	res := seg.Raycast(p)
+	rayKnown := func(o fw.Outcome) fw.Outcome {
+		if denormalRange(c.Scale) && kf.Enabled("C19", "KF-RANGE") {
+			o.Known = "KF-RANGE"
+		}
+		return o
+	}
 	if res.On != wantOn {
-		return fw.Failf(label, "Segment%v.Raycast(%v).On = %v, exact %v (scale 2^%d)", c.S, c.P, res.On, wantOn, c.Scale)
+		return rayKnown(fw.Failf(label, "Segment%v.Raycast(%v).On = %v, exact %v (scale 2^%d)", c.S, c.P, res.On, wantOn, c.Scale))
 	}
 	if !wantOn && res.In != wantIn {
-		return fw.Failf(label, "Segment%v.Raycast(%v).In = %v, exact half-open crossing %v (scale 2^%d)", c.S, c.P, res.In, wantIn, c.Scale)
+		return rayKnown(fw.Failf(label, "Segment%v.Raycast(%v).In = %v, exact half-open crossing %v (scale 2^%d)", c.S, c.P, res.In, wantIn, c.Scale))
 	}
 	if got := seg.ContainsPoint(p); got != wantOn {
-		return fw.Failf(label, "Segment%v.ContainsPoint(%v) = %v, exact %v (scale 2^%d)", c.S, c.P, got, wantOn, c.Scale)
+		return rayKnown(fw.Failf(label, "Segment%v.ContainsPoint(%v) = %v, exact %v (scale 2^%d)", c.S, c.P, got, wantOn, c.Scale))
 	}
 	wantCol := exact.Orient(a, b, c.P) == 0
 	if got := seg.CollinearPoint(p); got != wantCol {
-		return fw.Failf(label, "Segment%v.CollinearPoint(%v) = %v, exact %v (scale 2^%d)", c.S, c.P, got, wantCol, c.Scale)
+		return rangeKnown("C19", c.Scale, fw.Failf(label, "Segment%v.CollinearPoint(%v) = %v, exact %v (scale 2^%d)", c.S, c.P, got, wantCol, c.Scale))
 	}
 	r := seg.Rect()
 	wr := geometry.Rect{Min: geometry.Point{X: adapt.F(min(a.X, b.X), c.Scale), Y: adapt.F(min(a.Y, b.Y), c.Scale)},
@@ -89,6 +96,10 @@ func c19CheckSegPt(c c19SegPt) fw.Outcome {
 }
 
 func c19CheckSegSeg(c c19SegSeg) fw.Outcome {
+	return rangeKnown("C19", c.Scale, c19CheckSegSegRaw(c))
+}
+
+func c19CheckSegSegRaw(c c19SegSeg) fw.Outcome {
 	s, t := adapt.Seg(c.S, c.Scale), adapt.Seg(c.T, c.Scale)
 	want := exact.SegsMeet(c.S, c.T)
 	label := "general"
@@ -154,6 +165,37 @@ func genScale(t *rapid.T) int {
 	return 0
 }
 
+// extremeScales: here a product of two coordinate differences leaves the normal double range, so the
+// kernels built on cross products (CollinearPoint, IntersectsSegment, ContainsSegment, the convexity and
+// winding sums) lose exactness - the listed finding KF-RANGE; Raycast, built on comparisons and one
+// quotient per axis, keeps answering exactly and stays asserted.
+var extremeScales = []int{-1000, -600, -540, 540, 600, 1000}
+
+func extremeRange(scale int) bool { return scale > 480 || scale < -500 }
+
+// denormalScale: every lattice ordinate (< 2^21 in magnitude) is a denormal double.  There even Raycast
+// is off: its one-ulp nudge of a point level with an endpoint is no longer small against the segment
+// (same listed finding, asserted only in C19's segment-point check).
+const denormalScale = -1060
+
+func denormalRange(scale int) bool { return scale <= -1044 }
+
+// genScaleX is genScale plus, one time in twelve, an extreme scale.
+func genScaleX(t *rapid.T) int {
+	if rapid.IntRange(0, 11).Draw(t, "xscale_m") == 0 {
+		return rapid.SampledFrom(extremeScales).Draw(t, "xscale")
+	}
+	return genScale(t)
+}
+
+// rangeKnown turns a failure of a cross-product kernel at an extreme scale into the known finding.
+func rangeKnown(property string, scale int, o fw.Outcome) fw.Outcome {
+	if o.Fail != "" && o.Known == "" && extremeRange(scale) && kf.Enabled(property, "KF-RANGE") {
+		o.Known = "KF-RANGE"
+	}
+	return o
+}
+
 var farScales = []int{-100, -60, -40, -30, -24, -20, -16, 16, 20, 30, 40, 60, 100}
 
 // genPointOnLine draws a lattice point on the line through s (possibly outside the segment).
@@ -215,7 +257,11 @@ func c19GenSegPt(t *rapid.T) c19SegPt {
 	default:
 		p = genP(t, "p")
 	}
-	return c19SegPt{S: s, P: p, Scale: genScale(t)}
+	sc := genScaleX(t)
+	if extremeRange(sc) && rapid.IntRange(0, 5).Draw(t, "denormal") == 0 {
+		sc = denormalScale
+	}
+	return c19SegPt{S: s, P: p, Scale: sc}
 }
 
 func c19GenSegSeg(t *rapid.T) c19SegSeg {
@@ -238,7 +284,7 @@ func c19GenSegSeg(t *rapid.T) c19SegSeg {
 	if rapid.Bool().Draw(t, "swap") {
 		u.A, u.B = u.B, u.A
 	}
-	return c19SegSeg{S: s, T: u, Scale: genScale(t)}
+	return c19SegSeg{S: s, T: u, Scale: genScaleX(t)}
 }
 
 func latticePoints(n int64) []exact.P {
@@ -265,14 +311,14 @@ func c19Subs() []fw.Sub {
 	return []fw.Sub{
 		fw.Prop[c19SegPt]{
 			Name:       "segment-point",
-			Exhaustive: "all (segment, point) triples on the 6x6 integer lattice (8x8 in thorough), at scales 2^0, 2^-30 and 2^40",
+			Exhaustive: "all (segment, point) triples on the 6x6 integer lattice (8x8 in thorough), at scales 2^0, 2^-30, 2^40 and the extreme 2^-600, 2^600",
 			Enum: func(tier string, yield func(c19SegPt) bool) {
 				n := int64(6)
 				if tier == "thorough" {
 					n = 8
 				}
 				pts := signedLattice(n)
-				for _, sc := range []int{0, -30, 40} {
+				for _, sc := range []int{0, -30, 40, -600, 600} {
 					for _, a := range pts {
 						for _, b := range pts {
 							for _, p := range pts {
@@ -295,7 +341,7 @@ func c19Subs() []fw.Sub {
 		},
 		fw.Prop[c19SegSeg]{
 			Name:       "segment-segment",
-			Exhaustive: "all (segment, segment) pairs on the 6x6 integer lattice (8x8 in thorough) at scale 2^0, and on the 4x4 lattice at scales 2^-30 and 2^40",
+			Exhaustive: "all (segment, segment) pairs on the 6x6 integer lattice (8x8 in thorough) at scale 2^0, and on the 4x4 lattice at scales 2^-30, 2^40 and 2^-600",
 			Enum: func(tier string, yield func(c19SegSeg) bool) {
 				n := int64(6)
 				if tier == "thorough" {
@@ -315,7 +361,7 @@ func c19Subs() []fw.Sub {
 				}
 				// the 4x4 sub-lattice again at two far scales
 				small := signedLattice(4)
-				for _, sc := range []int{-30, 40} {
+				for _, sc := range []int{-30, 40, -600} {
 					for _, a := range small {
 						for _, b := range small {
 							for _, c := range small {
